@@ -42,6 +42,12 @@ CHECKS = {
  "C18": ("model-based property testing (proptest): operation histories interpreted against std BTreeSet",
          "exploration over pairs of histories (0..40 ops) on three element types; invariants after every step and history-independence of ==, cmp, Hash",
          "trusted base: std BTreeSet as the model of a sorted set", "DESIGN.md §4 C18", E1),
+ "C07": ("property-based testing / fuzzing (proptest): generated texts of 9 families under catch_unwind, plus size-stress and unusual-grammar inputs run in child processes (default stack, RLIMIT_AS) to observe aborts",
+         "exploration: no panic / abort among generated texts reaching every pipeline stage, and among stress inputs at the stated size bounds; non-termination is not decidable by testing (watchdog => inconclusive)",
+         "trusted base: catch_unwind + child-process exit status as the observation of panic/abort; reference front end only classifies cases", "DESIGN.md §4 C07, §9", "E1 + E4 child processes (harness/src/props/total.rs)"),
+ "C14": ("property-based testing (proptest): metamorphic repetition — same text on the runner thread, on freshly spawned threads (fresh RandomState keys) and in fresh child processes",
+         "exploration over texts of every outcome class, biased to large grammars; >= 8 hash-key sets per text in-process, 3 child processes on a sample; hash keys cannot be pinned, so this samples the seed space",
+         "trusted base: std RandomState draws fresh keys per thread/process; Debug rendering of errors as the structural comparison", "DESIGN.md §4 C14, §9", "E1 + E4 child processes (harness/src/props/total.rs)"),
 }
 
 NOT_YET = {}
@@ -80,6 +86,7 @@ def main():
         },
         "engines": [
             {"name": "E1", "path": "harness/src/engine.rs", "serves_properties": sorted(CHECKS), "kind_free_text": "sharded proptest TestRunner (16 shards, fixed seeds from VERIF_SEED), catch_unwind around kiki, automatic shrinking, replay files"},
+            {"name": "E4", "path": "harness/src/props/total.rs", "serves_properties": [p for p in ("C07", "C14") if p in CHECKS], "kind_free_text": "the verif binary re-executes itself (`verif worker`) to observe aborts / stack overflows and fresh-process hash seeds"},
         ],
         "checks": checks,
         "not_applicable": na,
